@@ -4,7 +4,7 @@ import copy
 
 from .suites_l0 import gen_decl, value_for_dtype
 from .values import materialize, rand_value
-from .props.c10 import ref_resolve, parse as parse_name
+from .props.c10 import ref_resolve, ref_match, parse as parse_name
 
 TASK_NAMES = ['x', 'y', 'tx', 'train_x', 'aa', 'a', 'm', 'n', 'xn']
 GROUPS = ['', '', '', 'g', 'g:h', 'xg']
@@ -363,6 +363,8 @@ def ref_chain(case):
                 return ('error', f'duplicate input {q} of {full}')
             found = ref_resolve(q, names, False)
             if found is None:
+                if any(ref_match(q, n2, False) for n2 in names):
+                    return ('error', f'input {q} of {full} is ambiguous')
                 if required:
                     return ('error', f'input {q} of {full} not found')
                 ins[q] = {'default': default[0]}
